@@ -47,7 +47,8 @@ func replayJson(line []byte, a *Acc) {
 			m = mxj.Map{"k": []interface{}{s, map[string]interface{}{s: []interface{}{s}}}}
 		}
 		one := func(sig, detail string) {
-			a.Mis(sig, fmt.Sprintf("string %q as %s, safe=%v: %s", s, c.Shape, c.Safe, detail), jsonLine{F: "json", S: l.S, Cs: []jsonCase{c}})
+			// (the whole line is the replay case: some defects only show after an earlier call)
+			a.Mis(sig, fmt.Sprintf("string %q as %s, safe=%v: %s", s, c.Shape, c.Safe, detail), l)
 		}
 		if strings.ContainsAny(s, "<>&\\\"\x01\n") {
 			nontriv++
@@ -65,6 +66,17 @@ func replayJson(line []byte, a *Acc) {
 		}
 		if string(b) != c.X {
 			one(fmt.Sprintf("json:bytes:%s:safe=%v", c.Shape, c.Safe), fmt.Sprintf("Json = %q, specification %q", b, c.X))
+			continue
+		}
+		// a returned result belongs to the caller: encoding another Map must not change it
+		keep := string(b)
+		keepi := string(bi)
+		other := mxj.Map{"zzzzzzzzzzzzzzzzzzzzzzzzzzzzzzzzzzzzzzzzzzzzzzzzzz": []interface{}{1.5, "other", s + s}}
+		other.Json(c.Safe)
+		other.JsonIndent("", " ", c.Safe)
+		other.Json(!c.Safe)
+		if string(b) != keep || string(bi) != keepi {
+			one("json:result-overwritten", fmt.Sprintf("the bytes returned by Json/JsonIndent changed after encoding another Map: %q -> %q", keep, b))
 			continue
 		}
 		for i, out := range [][]byte{b, bi} {
